@@ -864,6 +864,41 @@ class Extractor:
         drops.append('A7 operator desugaring in %s: unary `%s %s` -> core::ops::%s::%s(..)' % (where, op, R, tr, meth))
         return body
 
+    def _float_neg(self, body, where, drops, res):
+        """A15: unary negation of a parenthesised float cast, `-(E as f64)` -> `vx_neg_f64__(E as f64)`; the shim is an
+        external_body function with no contract (Verus 0.2026.09.13 has no unary negation of floats), so nothing is
+        known about the value: obligations that depend on it fail or stay undecided, never pass by accident."""
+        while True:
+            toks = lex(body)
+            hit = None
+            for k in range(len(toks) - 1):
+                if toks[k].text != '-' or toks[k + 1].text != '(':
+                    continue
+                prev = toks[k - 1] if k else None
+                if prev is not None and (prev.kind in ('ident', 'num', 'str', 'char') and prev.text not in ('return', 'in', 'if', 'else', 'match') or prev.text in (')', ']')):
+                    continue    # binary minus
+                depth, j = 0, k + 1
+                while j < len(toks):
+                    if toks[j].text == '(':
+                        depth += 1
+                    elif toks[j].text == ')':
+                        depth -= 1
+                        if depth == 0:
+                            break
+                    j += 1
+                if j >= len(toks) or j < k + 4:
+                    continue
+                if toks[j - 2].text == 'as' and toks[j - 1].text == 'f64':
+                    hit = (k, j)
+                    break
+            if hit is None:
+                return body
+            k, j = hit
+            inner = body[toks[k + 1].end:toks[j].start]
+            body = body[:toks[k].start] + 'vx_neg_f64__(' + inner + ')' + body[toks[j].end:]
+            res.need_neg_f64 = True
+            drops.append('A15 in %s: `-(%s)` -> vx_neg_f64__(..) (assumed shim without contract)' % (where, inner.strip()))
+
     def _eta(self, body, fs, where, drops):
         """A10: a datatype constructor passed as a function value, `f(Ctor)`, is eta-expanded to
         `f(|x: A| -> (o: R) ensures o == Ctor(x) { Ctor(x) })` (same function; Verus does not accept constructors as values)."""
@@ -1173,6 +1208,7 @@ class Extractor:
             body = self._clean_body(body, res.drops, where)
             body = self._desugar(body, fs, where, res.drops)
             body = self._eta(body, fs, where, res.drops)
+            body = self._float_neg(body, where, res.drops, res)
         if not fs.external_body:
             sig, body = self._param_patterns(sig, body, res.drops, where)
         if fs.ret:
@@ -1479,6 +1515,9 @@ class Extractor:
         walk(nodes, None)
         for n in range(len(res.canary_fns)):
             out.add('pub uninterp spec fn canary__%d() -> bool;' % n)
+        if getattr(res, 'need_neg_f64', False):
+            out.add('#[verifier::external_body] pub fn vx_neg_f64__(x: f64) -> f64 { -x }')
+            res.assumed.append('vx_neg_f64__ (A15 shim: unary float negation, no contract)')
         out.add('} // verus!')
         out.add('fn main() {}')
         res.drops += self._notes
